@@ -280,7 +280,9 @@ def arg_values(rng: Rng) -> list:
              # the reserved marker anywhere but at the start of the payload is ordinary data
              {"x": "__repid_payload_id"}, {"ref": "abc", "__repid_payload_id": "id-3_x"}, ["x", "__repid_payload_id"],
              # (the bare string "__repid_payload_id" serialises to a payload that starts with the marker: excluded by the statement)
-             {"a": {"__repid_payload_id": "id-5_x"}}]
+             {"a": {"__repid_payload_id": "id-5_x"}},
+             # text beyond ASCII, and a string with an unpaired surrogate (JSON-serialisable; not encodable as UTF-8 when left raw)
+             {"t": "h\u00e9llo \u2713 \U0001F600"}, {"t": "cut \ud83d"}, "\udfff"]
     out = [(None, None)] + [(v, json.loads(json.dumps(v))) for v in plain]
     out.append((DC(1, "z", date(2024, 2, 29)), {"a": 1, "b": "z", "when": "2024-02-29"}))
     out.append((PM(x=3, y=["q"], d=timedelta(seconds=1.5)), {"x": 3, "y": ["q"], "d": "PT1.5S"}))
